@@ -8,8 +8,8 @@ structure DSt where
 
 /-- ops (stateful):
   reset <chunksize> <size> <nchunks>  → ok
-  alloc <n>                           → <offset> | !retries
-  size                                → <size> <nchunks>
+  alloc <n>                           → <offset> | !retries | !assert (n = 0 or n > chunksize)
+  size                                → <size>
 -/
 def step' (s : DSt) (l : List String) : DSt × String :=
   match l with
@@ -20,12 +20,13 @@ def step' (s : DSt) (l : List String) : DSt × String :=
   | ["alloc", n] =>
     match parseNat n with
     | some n =>
+      if n = 0 ∨ n > s.c then (s, "!assert") else
       match allocSeq s.c s.sh n with
       | (sh', .returned off _) => (⟨s.c, sh'⟩, toString off)
       | (sh', .panicked) => (⟨s.c, sh'⟩, "!retries")
       | (sh', _) => (⟨s.c, sh'⟩, "!stuck")
     | none => (s, "bad-op")
-  | ["size"] => (s, s!"{s.sh.size} {s.sh.nchunks}")
+  | ["size"] => (s, toString s.sh.size)
   | _ => (s, "bad-op")
 
 def main : IO Unit := runS ⟨1, (initSt 0 1).sh⟩ step'
